@@ -249,7 +249,7 @@ CLEN_TEXT = (" (CLEN) The Clenshaw summations the series go through (Geodesic::S
 
 LINT_TEXT = (" Over the property's anchor files the check also runs the repository's contradiction rules, each with a positive "
              "control: SW1 swapped same-named arguments, OV1 product overflowing before widening, N1 fold before use, D3 stale "
-             "sine/cosine after its angle is corrected, CP1 consistent renaming between sibling clones, NB1 normalised string "
+             "sine/cosine after its angle is corrected, CP1/CP2 consistent renaming between sibling clones (statements of a block, whole functions of a class), NB1 normalised string "
              "copy supersedes the raw argument, ZQ1 quotients that vanish together stay guarded after their operands are "
              "reassigned, PRT1 sibling switches partition their labels alike, TW1 twin guards agree on fabs, ANG1 degrees and "
              "radians are not mixed, ONE1 a signed angular difference is not bounded on one side only, AUX1 the auxiliary-latitude kind of a variable's name "
